@@ -282,6 +282,7 @@ def run(argv):
                 "add_reaction_from_file" if staged else "constructor"}
         chk.hist[f"kind:{kind}"] += 1
         chk.hist["staged" if staged else "one-step"] += 1
+        backends_done = 0
         for b in (["dense", "rosenbrock4"] if tier == "quick" else ["dense", "sparse", "rosenbrock4"]):
             path = chk.scratch / f"n{n}-{b}"
             try:
@@ -306,6 +307,17 @@ def run(argv):
                               statement=[f"ab[{k}] = {fac[k]}" for k in empty][:3])
                 break
             elems = sorted(rd.elem_idx, key=lambda k: rd.elem_idx[k])
+            # the elements of the renormalisation are the atomic species of the network - at every rendering of the object
+            want_elems = {"IDX_ELEM_" + s.comp[0][0] for s in species if s.kind == "gas" and s.charge == 0 and len(s.comp) == 1 and s.comp[0][1] == 1
+                          and not s.name.startswith(("o", "p", "m"))}
+            if kind == "grain":
+                want_elems.add("IDX_ELEM_GRAIN")
+            if set(elems) != want_elems or rd.nelem != len(want_elems):
+                chk.violation({"kind": "elements-differ", "net": kind, "backend": b, "rendering": backends_done},
+                              f"rendering number {backends_done + 1} of this network object ({b}) has NELEMENTS = {rd.nelem} with the element "
+                              f"macros {sorted(elems)}; the atomic species of the network are {sorted(want_elems)}", input=show)
+                break
+            backends_done += 1
             if set(mat) != {(i, j) for i in elems for j in elems}:
                 chk.violation({"kind": "matrix-shape", "net": kind}, "InitRenorm does not assign every element pair", input=show)
                 break
